@@ -60,7 +60,7 @@ func factsMuxLocks() {
 		ents = append(ents, ent{regexp.MustCompile(t.re), strings.Split(t.keys, ",")})
 	}
 	resolved := map[string]int{}
-	w := &lockWalker{dir: mx, classes: classes, listed: map[string]string{}, stack: map[string]bool{}, cache: map[string][][]lockEv{}}
+	w := &lockWalker{dir: mx, classes: classes, listed: map[string]string{}, stack: map[string]bool{}, cache: map[string][][]lockEv{}, auto: true}
 	w.resolve = func(c *ast.CallExpr) ([]string, bool) {
 		t := show(c.Fun)
 		for _, e := range ents {
